@@ -57,8 +57,8 @@ def known_for(o, listed):
 def describe(o):
     rs = ["%s %s://%s%s" % (r["kind"], r["scheme"], r["rawhost"], " +Authorization" if r["auth"] else "")
           for r in o["reqs"]]
-    return "path=%s variant=%s passAll=%s redirect=%s tls=%s order=%s repo=%s chart=%s requests=[%s]" % (
-        o["path"], o["variant"], o["passAll"], o["redirect"], o.get("tls"), o.get("order"), o["repoURL"], o["chartURL"], "; ".join(rs))
+    return "path=%s variant=%s passAll=%s redirect=%s tls=%s order=%s conf=%s repo=%s chart=%s requests=[%s]" % (
+        o["path"], o["variant"], o["passAll"], o["redirect"], o.get("tls"), o.get("order"), o.get("conf"), o["repoURL"], o["chartURL"], "; ".join(rs))
 
 
 def run_cases(d, hv, cases, seed, concs, shards=4):
